@@ -12,6 +12,7 @@ import (
 	"errors"
 	"fmt"
 	"io"
+	"math"
 	"net/http"
 	"os"
 	"sort"
@@ -37,6 +38,9 @@ type params struct {
 	Wait     time.Duration // fixed pacer wait (duration scenarios)
 	ClockHit bool          // targeter / transport read the (hooked) clock
 	Trunc    bool          // attacker built with MaxBody(1): the rest of the 2-byte body is only drained
+	MaxFirst bool          // options applied as MaxWorkers(M), Workers(W0) instead of Workers, MaxWorkers
+	Huge     bool          // adversarial pacer may answer with a wait of MaxInt64 ("hold until stopped")
+	FailRT   bool          // every exchange fails in the transport; the client has a 1ns Timeout configured
 }
 
 func (p params) name() string {
@@ -58,6 +62,18 @@ func (p params) name() string {
 	}
 	if p.Trunc {
 		s += ",maxbody=1"
+	}
+	if p.MaxFirst {
+		s += ",maxfirst"
+	}
+	if p.Huge {
+		s += ",hugewait"
+	}
+	if p.FailRT {
+		s += ",failrt"
+	}
+	if !p.Adv && p.Du == 0 && p.Wait != 0 {
+		s += fmt.Sprintf(",wait=%d", p.Wait)
 	}
 	s += fmt.Sprintf(",clock=%d", p.Mode)
 	return s
@@ -133,12 +149,16 @@ func (pc pacer) Pace(elapsed time.Duration, hits uint64) (time.Duration, bool) {
 		if goes >= w.p.N {
 			rec.Stop = true
 		} else {
-			c := vsched.Choose(1+len(waitAlphabet)*len(stallAlphabet), "pace")
+			wa := waitAlphabet
+			if w.p.Huge {
+				wa = []time.Duration{0, math.MaxInt64}
+			}
+			c := vsched.Choose(1+len(wa)*len(stallAlphabet), "pace")
 			if c == 0 {
 				rec.Stop = true
 			} else {
 				c--
-				rec.Wait = waitAlphabet[c/len(stallAlphabet)]
+				rec.Wait = wa[c/len(stallAlphabet)]
 				rec.Stall = stallAlphabet[c%len(stallAlphabet)]
 				if rec.Stall > 0 {
 					vsched.TimeSleep(rec.Stall) // the pacer itself returns late
@@ -169,6 +189,9 @@ func (f fakeRT) RoundTrip(r *http.Request) (*http.Response, error) {
 		rec.Exit = vsched.TimeNow().Sub(vsched.Base())
 	}
 	f.w.rts = append(f.w.rts, rec)
+	if f.w.p.FailRT {
+		return nil, errors.New("connection reset by peer")
+	}
 	body := &clockBody{rec: rec, data: strings.NewReader("ok"), on: f.w.p.ClockHit && f.w.p.Mode == vsched.ClockTicking}
 	return &http.Response{StatusCode: 200, Status: "200 OK", Body: body, Header: http.Header{}, Request: r}, nil
 }
@@ -194,9 +217,17 @@ func (w *world) main() {
 	if p.DNS {
 		opts = append(opts, vegeta.Client(&http.Client{Transport: &http.Transport{}}), vegeta.DNSCaching(time.Minute))
 	} else {
-		opts = append(opts, vegeta.Client(&http.Client{Transport: fakeRT{w}}))
+		c := &http.Client{Transport: fakeRT{w}}
+		if p.FailRT {
+			c.Timeout = 1 // 1ns: whatever the exchange takes is longer than the configured timeout
+		}
+		opts = append(opts, vegeta.Client(c))
 	}
-	opts = append(opts, vegeta.Workers(p.W0), vegeta.MaxWorkers(p.M))
+	if p.MaxFirst {
+		opts = append(opts, vegeta.MaxWorkers(p.M), vegeta.Workers(p.W0))
+	} else {
+		opts = append(opts, vegeta.Workers(p.W0), vegeta.MaxWorkers(p.M))
+	}
 	if p.Trunc {
 		opts = append(opts, vegeta.MaxBody(1))
 	}
@@ -439,7 +470,13 @@ func (w *world) end(s *vsched.Sched, r *vsched.Result) (string, string) {
 			if wt < 0 {
 				wt = 0
 			}
-			rel = append(rel, pr.Clock+pr.Stall+wt)
+			r := pr.Clock + pr.Stall
+			if r > math.MaxInt64-wt {
+				r = math.MaxInt64
+			} else {
+				r += wt
+			}
+			rel = append(rel, r)
 		}
 		st := append([]time.Duration(nil), w.startT...)
 		sort.Slice(st, func(i, j int) bool { return st[i] < st[j] })
@@ -777,6 +814,14 @@ func c03Plans() []plan {
 			}
 			add(params{W0: w0, M: m, N: n, Cause: "pacer", Slow: true}, bs)
 			add(params{W0: w0, M: m, N: n, Cause: "pacer"}, bound)
+			if n <= 3 {
+				// the pacer asks for a positive wait before every hit (on schedule, not behind)
+				add(params{W0: w0, M: m, N: n, Cause: "pacer", Slow: true, Wait: 5}, bs)
+			}
+			if w0 > m && n <= 3 {
+				// the options in the other order: MaxWorkers first, then an initial worker count above it
+				add(params{W0: w0, M: m, N: n, Cause: "pacer", Slow: true, MaxFirst: true}, bs)
+			}
 			if m < 3 {
 				add(params{W0: w0, M: m, N: n, Cause: "stop1", Slow: true}, ev.Pick(2, 3))
 			}
@@ -805,6 +850,7 @@ func c04Plans() []plan {
 				}
 				add(params{W0: w0, M: m, N: 3, Cause: "pacer", Adv: true, Du: du}, b3)
 			}
+			add(params{W0: w0, M: m, N: 2, Cause: "pacer", Adv: true, Huge: true}, ev.Pick(1, 2))
 			add(params{W0: w0, M: m, N: 3, Cause: "duration", Du: 10, Wait: 4}, ev.Pick(2, 3))
 			add(params{W0: w0, M: m, N: 3, Cause: "duration", Du: 7, Wait: 4}, ev.Pick(2, 3))
 			add(params{W0: w0, M: m, N: 2, Cause: "stop1", Adv: true}, ev.Pick(1, 2))
@@ -831,6 +877,8 @@ func c05Plans() []plan {
 	add(params{W0: 2, M: 2, N: 2, Cause: "tgterr", ErrAt: 0}, ev.Pick(3, -1))
 	add(params{W0: 2, M: 2, N: 2, Cause: "pacer", Trunc: true}, ev.Pick(2, 3))
 	add(params{W0: 1, M: 1, N: 2, Cause: "pacer", Trunc: true}, -1)
+	add(params{W0: 2, M: 2, N: 2, Cause: "pacer", FailRT: true}, ev.Pick(2, 3))
+	add(params{W0: 1, M: 1, N: 2, Cause: "pacer", FailRT: true}, -1)
 	if ev.Thorough() {
 		add(params{W0: 3, M: 3, N: 4, Cause: "pacer"}, 2)
 	}
